@@ -502,7 +502,9 @@ func genC11(t *rapid.T) C11Case {
 		c.Kinds = append(c.Kinds, rapid.SampledFrom([]string{"plain", "plain", "int4", "int8"}).Draw(t, "kind"))
 	}
 	genVal := func(label string) model.Bytes {
-		v := rapid.SampledFrom([]model.Bytes{[]byte("v1"), []byte("v2"), []byte("x"), {0}, {}, []byte("a longer value \x00 with zero"), bytes.Repeat([]byte{'L'}, 2000)}).Draw(t, label)
+		v := rapid.SampledFrom([]model.Bytes{[]byte("v1"), []byte("v2"), []byte("x"), {0}, {}, []byte("a longer value \x00 with zero"), bytes.Repeat([]byte{'L'}, 2000),
+			// values that are a tail of other values ("1" of "v1", "v1" of "cfg-v1", "L"x100 of "L"x2000)
+			[]byte("1"), []byte("cfg-v1"), bytes.Repeat([]byte{'L'}, 100)}).Draw(t, label)
 		if len(v) == 0 && !c.CaptureOnly {
 			c.ExcludedEmpty++ // known finding: live empty values in shadow mode
 			v = []byte("e")
